@@ -96,14 +96,15 @@ class C32(Prop):
                   "each of its file strings round-trips, hence (C32_value_roundtrip_in_domain_partial) every value whose file "
                   "strings are plain paths / canonical locations below old_dir or other-scheme URLs. Non-canonical spellings "
                   "of a location are canonicalised, not restored (C32_noncanonical_location_refuted; C32_roundtrip_file is "
-                  "the statement for canonical locations only). The code before the fix is refuted (a%20b, 100%25). Tied to /repo "
+                  "the statement for canonical locations only). The code before the two fixes is refuted (a%20b, 100%25; /c:/f). Tied to /repo "
                   "by running the real functions and the model on generated nested CWL values with hostile names.")
     LEVEL_NOTE = ("Partial: relative paths (os.getcwd()), control characters, invalid UTF-8 after decoding and URL strings on "
                   "which urlsplit raises are outside the model (such cases are run on the implementation and judged by the "
-                  "oracle only). Round trip of a plain path needs 'no \":/\" inside either full path' (a component ending in "
-                  "':' makes remap_path treat the path as a URL: known finding). Trusted: Coq kernel + vm_compute; the "
-                  "hand-written model incl. its rendering of the urllib/posixpath functions; UTF-8 byte representation of "
-                  "str. No axioms.")
+                  "oracle only); non-canonical spellings of a file:// location are canonicalised, not restored literally. "
+                  "Plain paths are restored for every component bytes, ':' at the end of a component included "
+                  "(C32_roundtrip_plain, after fix 356cf56; C32_colon_slash_before_fix_refuted is the code before it). "
+                  "Trusted: Coq kernel + vm_compute; the hand-written model incl. its rendering of the urllib/posixpath "
+                  "functions; UTF-8 byte representation of str. No axioms.")
     TECHNIQUE = "Coq proof (induction over strings, component lists and CWL values) + vm_compute correspondence"
     RULE = ("bare strings and nested CWL values (File/Directory with location, path, secondaryFiles, listing; arrays; records; "
             "atoms) whose names mix ordinary and hostile components (blank, %, %XX, invalid escapes, UTF-8, ':', '?', '#', "
@@ -351,7 +352,8 @@ class C32(Prop):
                         return False
                     dec = my_unquote_bytes(s[7:]).decode("utf-8")
                     return dec == "" or dec.startswith("/")
-            return True
+                return True
+            # ":/" without a scheme in front of it: a plain path since the ":/" fix
         return s == "" or s.startswith("/")
 
     def _jv(self, v):
